@@ -10,6 +10,7 @@ CONSTANTS
   WithAux = FALSE
   MinCalls = 0
   WithAsm = TRUE
+  WithRefusals = FALSE
   ChunkForms <- Forms_quick
   IdxModes <- Idx_quick
 INVARIANTS WellFormedInv IndexExactInv ContentInv CrcInv StatsInv
